@@ -20,7 +20,7 @@ import lit
 from props import _resolver as RS
 
 HASHSEEDS = ['0', '1', '2', '3', 'random']
-EXPS = {'history': 0, 'libs': 1, 'hashseed': 2, 'perm': 3, 'ctors': 4}
+EXPS = {'history': 0, 'libs': 1, 'hashseed': 2, 'perm': 3, 'ctors': 4, 'handlib': 5}
 BLOCK_RE = r"\{[^\}]+\}"
 
 
@@ -76,7 +76,10 @@ class C12(RS.StepProp):
                  12: 'different graphs under different PYTHONHASHSEED values',
                  13: 'permuting the definitions inside a fragment block changed the result',
                  14: 'the three constructors disagree (whole string / base graph + fragment string / base string + fragment graphs / '
-                     'two calls: the molecule of the first levels handed to from_graph with the remaining blocks)'}
+                     'two calls: the molecule of the first levels handed to from_graph with the remaining blocks)',
+                 15: 'a HAND-BUILT fragment library (networkx graphs with optional node / edge attributes missing, e.g. edges without '
+                     "'order') handed to from_fragment_dicts at coarse levels was modified by resolving (node attribute dicts, edge "
+                     'attribute dicts, keys, adjacency), is aliased by the returned graphs, or repeated calls on it differ'}
 
     def __init__(self):
         super().__init__()
@@ -106,6 +109,11 @@ class C12(RS.StepProp):
         for b2, bl2 in [('{[#B1][#B2][#B1]}', [['#B1=[<][#PEO][#PEO][>]', '#B2=[<][#PE][#PE][>]'], ['#PEO=[>]COC[<]', '#PE=[>]CC[<]']]),
                         ('{[#A][#B]}', [['#A=[#B][#A][>]', '#B=[<][#A][#B]'], ['#A=[$]CO[$]', '#B=[$]CC[$]']])]:
             out.append({'kind': 'det', 'exp': 'ctors', 'base': b2, 'blocks': bl2, 'laa': True, 'legacy': True, 'hseed': 1})
+        # hand-built libraries through from_fragment_dicts, coarse last level (seed C12-9: edges without 'order')
+        for b3, bl3 in [('{[#A][#A][#B]}', [['#A=[<][#A1][#A2][#A3][>]', '#B=[>][#B1][#B2]']]),
+                        ('{[#A]([#B])[#A]}', [['#A=[$][#X]1[#Y][#Z]1[$]', '#B=[$][#P]=[#Q]']]),
+                        ('{[#A][#B]}', [['#A=[$][#X][#Y]', '#B=[$][#X][#X]'], ['#X=[$][#P][#Q][$]', '#Y=[$][#R]']])]:
+            out.append({'kind': 'det', 'exp': 'handlib', 'base': b3, 'blocks': bl3, 'laa': False, 'legacy': True, 'hseed': 1})
         for s in ['{a}{b}', '{}{x}', '{{a}}', 'a{b', '{a}.{#A=[$]C}', '}{', '{a\n}']:
             out.append({'kind': 'blocks', 's': s})
         return out
@@ -145,6 +153,10 @@ class C12(RS.StepProp):
             for exp in EXPS:
                 out.append(dict(d, exp=exp))
         self.prefetch_hash(dets)
+        for _ in range(max(6, n // 20)):     # hand-built libraries: coarse last level, 1-3 layers
+            base, blocks = RS.rand_multilevel(rng, rng.choice([1, 1, 2, 3]), False, squash=rng.random() < 0.2, coarse_squash=True)
+            out.append({'kind': 'det', 'exp': 'handlib', 'base': base, 'blocks': blocks, 'laa': False,
+                        'legacy': rng.random() < 0.6, 'hseed': rng.randint(0, 10 ** 6)})
         for _ in range(max(4, n // 12)):
             out.append(self.rand_sort_case(rng))
         alphabet = '{}{}{}ab#=[$],.\n'
@@ -251,11 +263,100 @@ class C12(RS.StepProp):
         self._hist[key] = res
         return res
 
+    @staticmethod
+    def hand_library(dicts, rng, mode):
+        """the library rebuilt BY HAND as plain networkx graphs ("fragments from elsewhere"): same keys, same adjacency, deep
+        copies of the attributes, with optional attributes left out - mode 0: no edge carries 'order' (or any attribute);
+        mode 1: each edge 'order' / node 'fragid' / other optional node attribute dropped with probability 1/2"""
+        import networkx as nx
+        keep = ('fragname', 'atomname', 'bonding')
+        out = []
+        for d in dicts:
+            nd = {}
+            for name, g in d.items():
+                h = nx.Graph()
+                for n, a in g.nodes(data=True):
+                    a = copy.deepcopy(a)
+                    if mode == 1:
+                        for k in list(a):
+                            if k not in keep and rng.random() < 0.5:
+                                del a[k]
+                    h.add_node(n, **a)
+                for u, v, a in g.edges(data=True):
+                    a = copy.deepcopy(a)
+                    if mode == 0:
+                        a = {}
+                    elif rng.random() < 0.5:
+                        a.pop('order', None)
+                    h.add_edge(u, v, **a)
+                nd[name] = h
+            out.append(nd)
+        return out
+
+    def run_handlib(self, case):
+        """from_fragment_dicts on a hand-built library, coarse levels only: the library (node attribute dicts, edge attribute
+        dicts, keys, adjacency order) must be what it was before any resolver saw it, after every call; every call must
+        return what the first call on a private deep copy returned; the returned graphs must not alias the library"""
+        from cgsmiles.resolve import MoleculeResolver
+        blocks = case['blocks'] if not case['laa'] else case['blocks'][:-1]
+        if not blocks:
+            return {'skip': 'no coarse level'}
+        legacy = case['legacy']
+        rng = random.Random(case['hseed'] + 7)
+        base = case['base']
+        try:
+            dicts = MoleculeResolver.read_fragment_strings(['{' + ','.join(b) + '}' for b in blocks], last_all_atom=False)
+        except Exception as exc:      # noqa: BLE001
+            return {'skip': 'fragment strings: ' + type(exc).__name__}
+        res = {'modes': []}
+        ok = True
+        for mode in (0, 1):
+            hand = self.hand_library(dicts, rng, mode)
+            pristine = copy.deepcopy(hand)
+            snap = RS.canon_dicts(hand)
+            try:
+                ref = RS.dump_iter(MoleculeResolver.from_fragment_dicts(base, copy.deepcopy(pristine), last_all_atom=False, legacy=legacy))
+            except Exception as exc:      # noqa: BLE001
+                ref = ['CTOR:' + type(exc).__name__]
+            if any(x.startswith(('EXC:', 'CTOR:')) for x in ref):
+                res['modes'].append([mode, 'reference run raised'])
+                continue
+            same, libs, alias = True, True, True
+            for _ in range(rng.randint(2, 3)):
+                r = MoleculeResolver.from_fragment_dicts(base, hand, last_all_atom=False, legacy=legacy)
+                graphs = []
+                got = []
+                try:
+                    for meta, mol in r.resolve_iter():
+                        got.append(RS.canon_result(meta, mol))
+                        graphs.append(mol)
+                        graphs.extend(meta.nodes[k]['graph'] for k in meta.nodes if 'graph' in meta.nodes[k])
+                except Exception as exc:      # noqa: BLE001
+                    got.append('EXC:' + type(exc).__name__)
+                same = same and got == ref
+                libs = libs and RS.canon_dicts(hand) == snap
+                # the returned graphs own their dicts: writing into them must not show in the library
+                for g in graphs:
+                    for n in g.nodes:
+                        g.nodes[n]['_cgv_probe'] = 1
+                    for u, v in g.edges:
+                        g.edges[u, v]['_cgv_probe'] = 1
+                alias = alias and RS.canon_dicts(hand) == snap
+            untouched = RS.canon_dicts(pristine) == snap
+            res['modes'].append([mode, same, libs, alias, untouched])
+            ok = ok and same and libs and alias and untouched
+        if all(m[1] == 'reference run raised' for m in res['modes']):
+            return {'skip': 'reference run raised'}
+        res['ok'] = ok
+        return res
+
     def run_det(self, case):
         from cgsmiles.resolve import MoleculeResolver
         s = RS.join_blocks(case['base'], case['blocks'])
         laa, legacy = case['laa'], case['legacy']
         exp = case['exp']
+        if exp == 'handlib':
+            return self.run_handlib(case)
         if exp in ('history', 'libs'):
             h = self.history(case)
             if not h['ref_ok']:
